@@ -16,7 +16,7 @@ TECHNIQUE = ('bounded exhaustive enumeration of table content models and format 
              '(LrTableWrite, EntryBlockSet, ChannelSpec) are compared byte for byte with an independent LIS-79 encoder and their '
              'output, cut into physical records, is decoded by the real readers and compared with the model')
 RULE = ('T: record type {32,34,39} x table name x 1-3 column mnemonics x 0-3 rows x cell values over bytes of length '
-        '{0,1,4,5,13}, integers at every 8/16/32 bit boundary, floats, with/without units, duplicate row names; full product for '
+        '{0,1,2,4,5,13}, integers at every 8/16/32 bit boundary, floats, with/without units, duplicate row names; full product for '
         '<= 2 rows x <= 2 columns, one-deviation for 3; physical record capacity small/large. E: every subset of entry blocks '
         '1..16 (without 10) with one legal value each, every block alone with each legal (size, code, value) variant, 1-3 channel '
         'blocks over (code, samples, bursts in {1,2,4}) and both dipmeter codes. non-trivial = at least one row / one set block; '
@@ -33,7 +33,7 @@ LEVEL_NOTE = 'trusted: models/lis_ref.py (component block / entry block / datum 
 
 NAMES = [b'CONS', b'FILM', b'A   ', b'AB\x00\x00', b'1234']
 COLS = [b'MNEM', b'STAT', b'VALU', b'X   ', b'PU\x00\x00']
-BYTES_VALUES = [b'', b'A', b'ALLO', b'12345', b'thirteen char']
+BYTES_VALUES = [b'', b'A', b'ON', b'ALLO', b'12345', b'thirteen char']      # lengths 0, 1, 2 (a pair, like (value, units)), 4, 5, 13
 INT_VALUES = [0, 255, 256, -1, -128, -129, 32767, 32768, -32768, -32769, 2 ** 31 - 1, -2 ** 31]
 FLOAT_VALUES = [0.0, 1.5, -153.0, 0.001, 1e30]
 UNITS = [None, b'FEET', b'IN  ']
